@@ -121,10 +121,10 @@ package main
 //@ define holder = obj.Holder
 //@ define wf = as(holder, *$OneOfType)
 //@ define wg = as(holder, *M_${ID}_G)
-//@ modifies obj.Holder
+//@ modifies obj.Holder, obj.S
 //@ ensures [C07,C05] imp(!known && !gknown, holder == nil)
 //@ ensures [C07,C06] imp(!known && gknown, is(holder, *M_${ID}_G) && wg != nil && fresh(wg) && wg.G == int32(vg.Value))
-//@ ensures [C07] imp(known, is(holder, *$OneOfType) && wf != nil && fresh(wf))
+//@ ensures [C07,C04] imp(known, is(holder, *$OneOfType) && wf != nil && fresh(wf))
 
 // ---- primitives
 //@ emits CopyFrom when Kind == "Primitive"
@@ -147,7 +147,7 @@ package main
 //@ ensures [C04,C19,C06,C02] imp(known, obj.F != nil && fresh(obj.F) && same(*obj.F, $CastFrom(v.Value)))
 
 //@ emits CopyFrom when Kind == "Primitive" && OneOf
-//@ ensures [C07,C19] imp(known, same(wf.F, $CastFrom(v.Value)))
+//@ ensures [C07,C19,C04] imp(known, same(wf.F, $CastFrom(v.Value)))
 
 // child of a nullable embedded message: the parent is allocated on demand
 //@ emits CopyFrom when Embed
@@ -200,7 +200,7 @@ package main
 //@ ensures [C04,C02] imp(known, obj.F.X == nestedDecode(v.Attrs["x"]) && obj.F.Other == 0)
 
 //@ emits CopyFrom when Kind == "Object" && OneOf
-//@ ensures [C07] imp(known, wf.F != nil && fresh(wf.F))
+//@ ensures [C07,C04] imp(known, wf.F != nil && fresh(wf.F))
 
 //@ emits CopyFrom when Kind == "Object" && OneOf && Nested == "marker"
 //@ ensures [C07,C04] imp(known, wf.F.X == nestedDecode(v.Attrs["x"]) && wf.F.Other == 0)
@@ -495,7 +495,7 @@ package main
 //@ ensures [C06] imp(isOT && !live, len(result) == 0)
 
 //@ emits CopyTo when Kind == "Object" && Ctx == "plain" && Nested == "empty"
-//@ ensures [C10,C20] imp(live && has(o.AttrTypes, "active") && !(prevOK && has(prev.Attrs, "active") && is(prev.Attrs["active"], types.Bool)), has(o.Attrs, "active") && is(o.Attrs["active"], types.Bool) && as(o.Attrs["active"], types.Bool).Null)
+//@ ensures [C03,C10,C20] imp(live && has(o.AttrTypes, "active") && !(prevOK && has(prev.Attrs, "active") && is(prev.Attrs["active"], types.Bool)), has(o.Attrs, "active") && is(o.Attrs["active"], types.Bool) && as(o.Attrs["active"], types.Bool).Null)
 
 // oneof branch holding a message
 //@ emits CopyTo when Kind == "Object" && OneOf
